@@ -208,18 +208,18 @@ package channels
 //@       len((*$2.(*internal.ChannelState)).VoucherResults) == 0 &&
 //@       (*$2.(*internal.ChannelState)).Responder == (dataSender == initiator ? dataReceiver : dataSender))
 
-//@ func (*channels.Channels).DataSent {C07,C08}
+//@ func (*channels.Channels).DataSent {C07,C08,C01}
 //@   acquires {C20} channels.blockIndexCache.lk, channels.progressCache.lk
 //@   ensures [wiring] seq(Channels.fireProgressEvent) && all(Channels.fireProgressEvent, $1 == chid && $2 == datatransfer.DataSent && $3 == datatransfer.DataSentProgress && $4 == delta && $5 == index && $6 == unique &&
 //@       ismethod($7, c, getSentIndex) && $8 == nil) && result == ret(Channels.fireProgressEvent, 0)
 //@   modifies c.blockIndexCache.values, c.progressCache.values
-//@ func (*channels.Channels).DataQueued {C07,C08}
+//@ func (*channels.Channels).DataQueued {C07,C08,C01}
 //@   acquires {C20} channels.blockIndexCache.lk, channels.progressCache.lk
 //@   ensures [wiring] seq(Channels.fireProgressEvent) && all(Channels.fireProgressEvent, $1 == chid && $2 == datatransfer.DataQueued && $3 == datatransfer.DataQueuedProgress && $4 == delta && $5 == index && $6 == unique &&
 //@       ismethod($7, c, getQueuedIndex) && ismethod($8, c, getQueuedProgress)) && result == ret(Channels.fireProgressEvent, 0)
 //@       -- the sender's limit is measured against what it queued: index and progress readers of the same direction
 //@   modifies c.blockIndexCache.values, c.progressCache.values
-//@ func (*channels.Channels).DataReceived {C07,C08}
+//@ func (*channels.Channels).DataReceived {C07,C08,C01}
 //@   acquires {C20} channels.blockIndexCache.lk, channels.progressCache.lk
 //@   ensures [wiring] seq(Channels.fireProgressEvent) && all(Channels.fireProgressEvent, $1 == chid && $2 == datatransfer.DataReceived && $3 == datatransfer.DataReceivedProgress && $4 == delta && $5 == index && $6 == unique &&
 //@       ismethod($7, c, getReceivedIndex) && ismethod($8, c, getReceivedProgress)) && result == ret(Channels.fireProgressEvent, 0)
@@ -329,7 +329,7 @@ package channels
 //@     step(s, DataReceived, n).ReceivedBlocksTotal == ((applied(s, DataReceived, n) && n > s.ReceivedBlocksTotal) ? n : s.ReceivedBlocksTotal) &&
 //@     step(s, DataSent, n).SentBlocksTotal == ((applied(s, DataSent, n) && n > s.SentBlocksTotal) ? n : s.SentBlocksTotal) &&
 //@     step(s, DataQueued, n).QueuedBlocksTotal == ((applied(s, DataQueued, n) && n > s.QueuedBlocksTotal) ? n : s.QueuedBlocksTotal)
-//@ lemma [progress-adds] {C07,C08}: forall s State, d uint64 ::
+//@ lemma [progress-adds] {C07,C08,C01}: forall s State, d uint64 ::
 //@     step(s, DataReceivedProgress, d).Received == (applied(s, DataReceivedProgress, d) ? (s.Received + d) % 18446744073709551616 : s.Received) &&
 //@     step(s, DataSentProgress, d).Sent == (applied(s, DataSentProgress, d) ? (s.Sent + d) % 18446744073709551616 : s.Sent) &&
 //@     step(s, DataQueuedProgress, d).Queued == (applied(s, DataQueuedProgress, d) ? (s.Queued + d) % 18446744073709551616 : s.Queued)
@@ -339,7 +339,7 @@ package channels
 //@ lemma [progress-only-while-transferring] {C07,C01}: foreach E in (DataReceivedProgress, DataSentProgress, DataQueuedProgress) :: forall s State ::
 //@     applied(s, E) ==> (s.Status == datatransfer.Ongoing || s.Status == datatransfer.ResponderCompleted ||
 //@         s.Status == datatransfer.ResponderFinalizing || s.Status == datatransfer.AwaitingAcceptance)
-//@ lemma [counters-touched-only-by-their-event] {C07}: foreach E in (*) :: forall s State ::
+//@ lemma [counters-touched-only-by-their-event] {C07,C01}: foreach E in (*) :: forall s State ::
 //@     (E != DataReceivedProgress ==> step(s, E).Received == s.Received) && (E != DataSentProgress ==> step(s, E).Sent == s.Sent) &&
 //@     (E != DataQueuedProgress ==> step(s, E).Queued == s.Queued) && (E != DataReceived ==> step(s, E).ReceivedBlocksTotal == s.ReceivedBlocksTotal) &&
 //@     (E != DataSent ==> step(s, E).SentBlocksTotal == s.SentBlocksTotal) && (E != DataQueued ==> step(s, E).QueuedBlocksTotal == s.QueuedBlocksTotal)
@@ -364,7 +364,7 @@ package channels
 //@   ensures [nonnil] err == nil ==> result0 != nil
 //@   ensures [at-most-one-read] calls(dyn.readIndexFn) <= 1
 
-//@ func (*channels.blockIndexCache).updateIfGreater {C07}
+//@ func (*channels.blockIndexCache).updateIfGreater {C07,C01}
 //@   acquires {C20} channels.blockIndexCache.lk
 //@   requires readFromOriginal != nil
 //@   modifies bic.values, *ret(blockIndexCache.getValue, 0) -- the cell belongs to the map's footprint
@@ -389,7 +389,7 @@ package channels
 //@   ensures [at-most-one-read] calls(dyn.readProgressFn) <= 1
 //@   ensures [nonnil] err == nil ==> result0.progress != nil
 
-//@ func (*channels.progressCache).progress {C08}
+//@ func (*channels.progressCache).progress {C08,C01}
 //@   acquires {C20} channels.progressCache.lk
 //@   requires readFromOriginal != nil
 //@   modifies pc.values, *ret(progressCache.getValue, 0).progress
@@ -434,7 +434,7 @@ package channels
 //@   acquires {C20} nothing
 //@   ensures [pair] result2 == nil ==> result0 == ret(GetByID, 0).DataLimit() && result1 == ret(GetByID, 0).Received() && called(GetByID, _, _, chid)
 
-//@ func (*channels.Channels).checkEvents {C07,C08}
+//@ func (*channels.Channels).checkEvents {C07,C08,C01}
 //@   acquires {C20} channels.blockIndexCache.lk, channels.progressCache.lk
 //@   requires readFromOriginal != nil
 //@   modifies c.blockIndexCache.values, c.progressCache.values
